@@ -178,11 +178,11 @@ Qed.
 
 (** The premises of [exact_counts] can be met: 2 threads, 5 samples of size 3,
     three rounds of two raw samples each, no budget. *)
-Definition ex_raw (s e : N) : raw := {| r_start := s; r_end := e; r_alloc := ai_zero; r_ctotal := 0 |}.
+Definition ex_raw (s e : N) : raw := {| r_start := s; r_end := e; r_alloc := ai_zero; r_ctotal := qconst 7 |}.
 Definition ex_cfg : cfg :=
   {| c_test := false; c_count := Some 5; c_size := Some 3; c_min := 0; c_max := u128_max; c_skip := false;
      c_freq := 1000000000000; c_prec := 1; c_oh := {| oh_loop := 0; oh_alloc := 0; oh_dealloc := 0; oh_realloc := 0 |};
-     c_input_counts := false |}.
+     c_input_counts := qconst false |}.
 Definition ex_hist : list round_obs :=
   [[ex_raw 10 310; ex_raw 5 300]; [ex_raw 400 700; ex_raw 390 720]; [ex_raw 800 1100; ex_raw 790 1090]].
 
@@ -551,7 +551,7 @@ Qed.
 Definition ex_tune_cfg : cfg :=
   {| c_test := false; c_count := Some 5; c_size := None; c_min := 0; c_max := u128_max; c_skip := false;
      c_freq := 1000000000000; c_prec := 4; c_oh := {| oh_loop := 0; oh_alloc := 0; oh_dealloc := 0; oh_realloc := 0 |};
-     c_input_counts := true |}.
+     c_input_counts := {| q_bytes := true; q_chars := false; q_cycles := false; q_items := true |} |}.
 Definition ex_tune_hist : list round_obs :=
   [[ex_raw 10 111; ex_raw 5 100]; [ex_raw 200 402; ex_raw 190 380]; [ex_raw 500 904; ex_raw 490 880];
    [ex_raw 1000 1404; ex_raw 990 1390]; [ex_raw 1500 1904; ex_raw 1490 1890]; [ex_raw 2000 2404; ex_raw 1990 2390]].
